@@ -39,6 +39,8 @@ def plan(pid, tier, seed):
         runs.append(("capacity", lambda: engines.capacity(tier, seed)))
     if pid in ("C03", "C04", "C10"):
         runs.append(("monitor", lambda: engines.monitor(tier, seed)))
+    if pid in ("C03", "C04", "C10") and tier == "thorough":
+        runs.append(("miri", lambda: engines.miri(tier, seed)))
     if pid in ("C01", "C08", "C09", "C10", "C07"):
         runs.append(("boundary", lambda: engines.boundary(tier, seed)))
     if pid in ("C08", "C10", "C09"):
